@@ -471,6 +471,28 @@ def _oracle_step(style, ref, op, outcome, cssnames):
     back = _state(css_parser.parseStyle(style.cssText, validate=False))
     if back != want:
         return "cssText %r re-parses to %r, sequence is %r" % (style.cssText, back, want)
+    # the serializer's effective-only view (prefs.keepAllProperties=False) shows, for every name, the SAME effective
+    # entry the getters report (last !important one, else last one), at that entry's position, and everything else as is
+    import re as _re
+    if len(ref.props()) != len(ref.keys()) and all(_re.fullmatch(r"[a-z-]+", e[2]) for e in ref.props()):
+        # (names whose normalised form is not a plain identifier are left out: writing the normalised name is not a
+        #  faithful spelling for them -- theorem normalize_not_idempotent)
+        prefs = css_parser.ser.prefs
+        keep = prefs.keepAllProperties
+        try:
+            prefs.keepAllProperties = False
+            text = style.cssText
+        finally:
+            prefs.keepAllProperties = keep
+        want_eff = [w for e, w in zip(ref.l, want) if e[0] != "P" or e is ref.effective(e[2])]
+        # (the literal spelling of the name is a layout matter there: prefs.defaultPropertyName writes the normalised
+        #  name in this mode -- compare name, value, priority)
+        nolit = lambda l: [(x[0], x[2], x[3], x[4]) if x[0] == "P" else tuple(x) for x in l]  # noqa: E731
+        back = nolit(_state(css_parser.parseStyle(text, validate=False)))
+        want_eff = nolit(want_eff)
+        if back != want_eff:
+            return ("cssText under keepAllProperties=False is %r and re-parses to %r; the effective entries the getters "
+                    "report are %r" % (text, back, want_eff))
     return None
 
 
